@@ -92,9 +92,44 @@ def do_scalars(rec, hub, U, la, rng):
             pass
 
 
+def trace_equivalence(rec, hub, seed):
+    """value-obliviousness evidence: per configuration the tagged, real and taint runs execute the same flodym lines"""
+    from ..trace import first_divergence, line_trace, trace_hash
+
+    fd = hub.fd
+    U = gen.universe(fd, {"a": 2, "b": 3, "c": 2})
+    rng = case_nprng(seed, "c01.trace", 0, 0)
+    configs = [(la, lb) for la in [("a", "b", "c"), ("c", "a"), ("b",), ()] for lb in [("a", "b", "c"), ("b", "c"), ("a",), ()]]
+    equal, differing = 0, []
+    for la, lb in configs:
+        for kind, f in BINOPS:
+            if kind == "pow" and not set(lb) <= set(la):
+                continue
+            traces = {}
+            for reg in ("tagged", "real", "taint"):
+                vx, vy = gen.values_pair(reg, kind, rng, gen.shape_of(U, la), gen.shape_of(U, lb))
+                x = fd.FlodymArray(dims=gen.dimset(fd, U, la), values=vx)
+                y = fd.FlodymArray(dims=gen.dimset(fd, U, lb), values=vy)
+                with hub.pause(), line_trace() as seq:
+                    try:
+                        f(x, y)
+                    except Exception:
+                        pass
+                traces[reg] = list(seq)
+            hs = {r: trace_hash(t) for r, t in traces.items()}
+            if len(set(hs.values())) == 1:
+                equal += 1
+            else:
+                differing.append({"op": kind, "x": la, "y": lb, "divergence": first_divergence(traces["tagged"], traces["real"]) or first_divergence(traces["tagged"], traces["taint"])})
+    rec.info("trace_equivalence", {"configurations": equal + len(differing), "same_line_sequence_for_tagged_real_taint": equal, "value_dependent_control_flow": differing[:10],
+                                   "lines_traced_example": len(traces["tagged"])})
+
+
 def run(rec, hub, tier, seed, shard, nshards, budget):
     fd = hub.fd
     arith.register(hub)
+    if shard == 0:
+        trace_equivalence(rec, hub, seed)
     if tier == "quick":
         letters, patterns, regimes = "abc", gen.LENGTH_PATTERNS[3], REGIMES
     else:
